@@ -236,7 +236,8 @@ func resolve(sel Selector, subject ipld.Node, at []string) (ipld.Node, error) {
 				cur = basicnode.NewInt(int64(b[idx]))
 
 			default:
-				return nil, newResolutionError(fmt.Sprintf("can not access index: %d on kind: %s", seg.Index(), kindString(cur)), at)
+				err := newResolutionError(fmt.Sprintf("can not access index: %d on kind: %s", seg.Index(), kindString(cur)), at)
+				return nil, errIfNotOptional(seg, err)
 			}
 		}
 	}
